@@ -18,6 +18,7 @@ ASSUMPTIONS = ["bincode's serialized_size agrees with serialize_into for the sam
                "bytes::BufMut::put_u64 / u64::from_be_bytes / Buf::get_u64 are big-endian (std/bytes semantics)"]
 
 FRAME = "selium_protocol::frame::Frame"
+DEC_KEEP = ("selium_protocol::codec::validate_payload_length", "<selium_protocol::frame::Frame as core::convert::TryFrom<(u8, bytes::bytes_mut::BytesMut)>>::try_from")
 VARIANTS = ["RegisterPublisher", "RegisterSubscriber", "RegisterReplier", "RegisterRequestor",
             "Message", "BatchMessage", "Error", "Ok"]
 CONSUMERS = {"bytes::buf::buf_impl::Buf::advance", "bytes::buf::buf_impl::Buf::get_u8", "bytes::bytes_mut::BytesMut::split_to",
@@ -120,8 +121,8 @@ def payload_binding(b, blocks, variant):
 
 
 def d2(ctx, F):
-    gl = F.body("selium_protocol::frame::Frame::get_length")
-    wb = F.body("selium_protocol::frame::Frame::write_to_bytes")
+    gl = F.inlined(F.body("selium_protocol::frame::Frame::get_length"))
+    wb = F.inlined(F.body("selium_protocol::frame::Frame::write_to_bytes"))
     ctx.touch(gl, wb)
     kinds = {}
     for b, tag in ((gl, "len"), (wb, "write")):
@@ -148,12 +149,14 @@ def d2(ctx, F):
                 elif n.startswith("bincode::") or n.startswith("bytes::buf::buf_mut::BufMut::put"):
                     ops.append(("other:" + n, on_payload, c.span))
             kinds.setdefault(v, {})[tag] = ops
+            kinds[v].setdefault("has_payload", False)
+            kinds[v]["has_payload"] = kinds[v]["has_payload"] or bool(bind)
     ctx.floor("C05.D2.length-agrees.variants", len(kinds), 8)
     for v in sorted(kinds):
         l, w = kinds[v].get("len", []), kinds[v].get("write", [])
         lk = [(k, p) for k, p, _ in l]
         wk = [(k, p) for k, p, _ in w]
-        good = lk == wk and all(p for _, p in lk) and len(lk) <= 1
+        good = lk == wk and all(p for _, p in lk) and len(lk) <= 1 and (len(lk) == 1 or not kinds[v].get("has_payload"))
         sp = (l or w or [(0, 0, gl.span)])[0][2]
         ctx.check(good, "C05.D2.length-agrees", "length-vs-write:%s" % v,
                   "%s: get_length measures %s, write_to_bytes writes %s (must be the same encoding of the same payload)"
@@ -171,7 +174,7 @@ def d2(ctx, F):
                 n += 1
                 if s not in ("bincode::serialized_size", "bincode::serialize_into", "bincode::deserialize", "bincode::serialize"):
                     bad.append(c)
-    ctx.floor("C05.D2.bincode-config.sites", n, 18)
+    ctx.floor("C05.D2.bincode-config.sites", n, 3)
     for c in bad:
         ctx.fail("C05.D2.bincode-config", "bincode-nondefault:%s:%s" % (c.body.path, strip_generics(c.callee)),
                  "bincode entry point %s is not one of the default-options free functions used by the sibling side" % c.callee, c.span)
@@ -179,7 +182,7 @@ def d2(ctx, F):
         ctx.ok("C05.D2.bincode-config", "all %d bincode call sites in selium_protocol use the default-options free functions" % n)
 
     # encoder layout
-    enc = F.one_body(r"^<selium_protocol::codec::MessageCodec as tokio_util::codec::encoder::Encoder<selium_protocol::frame::Frame>>::encode$")
+    enc = F.inlined(F.one_body(r"^<selium_protocol::codec::MessageCodec as tokio_util::codec::encoder::Encoder<selium_protocol::frame::Frame>>::encode$"), depth=0)
     ctx.touch(enc)
     glc = enc.calls_to("selium_protocol::frame::Frame::get_length")
     gtc = enc.calls_to("selium_protocol::frame::Frame::get_type")
@@ -200,7 +203,7 @@ def d2(ctx, F):
               "C05.D2.encoder-layout", "encode:order", "encoder writes length, then type, then payload", p64[0].span)
     wend = BE_WRITE[strip_generics(p64[0].callee)]
     # decoder prefix read
-    dec = F.one_body(r"^<selium_protocol::codec::MessageCodec as tokio_util::codec::decoder::Decoder>::decode$")
+    dec = F.inlined(F.one_body(r"^<selium_protocol::codec::MessageCodec as tokio_util::codec::decoder::Decoder>::decode$"), keep=DEC_KEEP)
     ctx.touch(dec)
     rd = [c for c in dec.calls() if strip_generics(c.callee) in BE_READ]
     if ctx.check(len(rd) == 1, "C05.D2.prefix-endianness", "decode:prefix-read-shape", "decoder reads the u64 prefix exactly once", dec.span):
@@ -247,7 +250,7 @@ def d3(ctx, F):
     ctx.check(found, "C05.D3.limit-comparison", "validate:no-cmp", "validate_payload_length compares its argument with the limit constant", v.span)
 
     enc = F.one_body(r"^<selium_protocol::codec::MessageCodec as tokio_util::codec::encoder::Encoder<selium_protocol::frame::Frame>>::encode$")
-    dec = F.one_body(r"^<selium_protocol::codec::MessageCodec as tokio_util::codec::decoder::Decoder>::decode$")
+    dec = F.inlined(F.one_body(r"^<selium_protocol::codec::MessageCodec as tokio_util::codec::decoder::Decoder>::decode$"), keep=DEC_KEEP)
     for b, side in ((enc, "encode"), (dec, "decode")):
         vc = b.calls_to("selium_protocol::codec::validate_payload_length")
         if not ctx.check(len(vc) >= 1, "C05.D3.limit-enforced", "%s:no-validate" % side,
@@ -299,7 +302,7 @@ def d3(ctx, F):
 
 
 def d4(ctx, F):
-    dec = F.one_body(r"^<selium_protocol::codec::MessageCodec as tokio_util::codec::decoder::Decoder>::decode$")
+    dec = F.inlined(F.one_body(r"^<selium_protocol::codec::MessageCodec as tokio_util::codec::decoder::Decoder>::decode$"), keep=DEC_KEEP)
     consumers = [c for c in dec.calls() if is_consumer(c)]
     ctx.floor("C05.D4.consumers", len(consumers), 3)
     # blocks that build Ok(None)
